@@ -5,7 +5,7 @@ import os
 import struct
 import tempfile
 
-from mc import core, impl, clidrv
+from mc import subchunk, core, impl, clidrv
 from mc.core import ChunkResult
 from mc.ref import trace as rtrace, hexdump as rhex
 
@@ -103,6 +103,8 @@ def plan(tier, seed):
     for i in range(len(SHAPES)):
         ch.append({'k': 'seq', 'first': i, 'maxlen': 2 if tier == 'quick' else 3})
     ch += [{'k': 'rewrite'}, {'k': 'trunc'}, {'k': 'nohdr'}, {'k': 'shipped', 'type': 'mex'}, {'k': 'shipped', 'type': 'nimitz'}, {'k': 'strings'}]
+    # the same under python -O (assertions stripped, __debug__ false)
+    ch += [dict(c, optimize=True) for c in [{'k': 'seq', 'first': 0, 'maxlen': 2}, {'k': 'rewrite'}, {'k': 'trunc'}, {'k': 'nohdr'}, {'k': 'strings'}]]
     return ch
 
 
@@ -281,6 +283,9 @@ SIZES = [0, 31, 32, 'exact', 'mid', 'boundary', 'larger', 0xffffffff, 'short1']
 
 
 def run_chunk(chunk):
+    routed = subchunk.route(__name__, chunk)
+    if routed is not None:
+        return routed
     res = ChunkResult()
     impl.ensure(False)
     k = chunk['k']
